@@ -24,6 +24,11 @@ from translate import t_c19
 
 warnings.simplefilter("ignore", SyntaxWarning)
 
+import __future__
+FUTURE_MASK = 0
+for _n in __future__.all_feature_names:
+  FUTURE_MASK |= getattr(__future__, _n).compiler_flag
+
 FLAGS = ['ASSIGN', 'CONDITION', 'LOOP', 'CALL', 'EXCEPTION', 'CLASS_DEFINITION',
          'FUNCTION_DEFINITION', 'IMPORT']
 
@@ -157,7 +162,8 @@ class ProgGen:
     if k == 'ann':
       v = self.fresh()
       names.append(v)
-      return ['%s%s: int = %d' % (pad, v, r.below(7))]
+      ann = r.choice(['int', 'int', 'str(SENTINEL.append(7))', 'print("ann")', 'undefined_ann_name'])
+      return ['%s%s: %s = %d' % (pad, v, ann, r.below(7))]
     if k == 'print':
       return ['%sprint(%s)' % (pad, e())]
     if k == 'pass':
@@ -206,7 +212,7 @@ class ProgGen:
       return [pad + 'try:', '%s  raise KeyError("k")' % pad, pad + 'except KeyError:', '%s  pass' % pad]
     if k == 'def':
       f = self.fresh()
-      out = ['%sdef %s(a, b=2):' % (pad, f)]
+      out = ['%sdef %s(a, b%s=2)%s:' % (pad, f, r.choice(['', '', ': print("argann")']), r.choice(['', '', ' -> len("r")']))]
       out += self.block(['a', 'b'], depth - 1, indent + 1, None, True, False)
       out += ['%s  return a' % pad]
       names.append(f)
@@ -516,10 +522,13 @@ class C19(Prop):
     reached = []
     real_exec, real_eval, real_compile = builtins.exec, builtins.eval, builtins.compile
 
-    def compile_w(source, *a, **k):
+    def compile_w(source, filename, mode, flags=0, dont_inherit=False, *a, **k):
       if isinstance(source, ast.AST):     # evaluate compiles the validated tree: validation is over
         reached.append('compile')
-      return real_compile(source, *a, **k)
+      if not dont_inherit:
+        # the builtin inherits the __future__ flags of the CALLING code; a wrapper would hide them
+        flags |= sys._getframe(1).f_code.co_flags & FUTURE_MASK
+      return real_compile(source, filename, mode, flags, True, *a, **k)
 
     def exec_w(*a, **k):
       reached.append('exec')
@@ -531,27 +540,30 @@ class C19(Prop):
 
     obs = {}
     slot_inside = None
-    with contextlib.ExitStack() as stack:
-      for s in case['scopes']:
-        stack.enter_context(coding.permission(perm(s)))
-      for s in case.get('pre', []):          # inner scopes entered and left before the call
-        with coding.permission(perm(s)):
-          pass
-      slot_inside = names_of(coding.get_permission())
-      builtins.exec, builtins.eval, builtins.compile = exec_w, eval_w, compile_w
-      try:
-        out = coding.evaluate(code, global_vars={'SENTINEL': sentinel, 'CTX': contextlib.nullcontext},
-                              permission=perm(case['explicit']), outputs_intermediate=True)
+    # The exception of a refused / failing program PROPAGATES THROUGH the permission scopes (it is
+    # caught outside them), so that a scope that only cleans up on normal exit is observed.
+    try:
+      with contextlib.ExitStack() as stack:
+        for s in case['scopes']:
+          stack.enter_context(coding.permission(perm(s)))
+        for s in case.get('pre', []):          # inner scopes entered and left before the call
+          with coding.permission(perm(s)):
+            pass
+        slot_inside = names_of(coding.get_permission())
+        builtins.exec, builtins.eval, builtins.compile = exec_w, eval_w, compile_w
+        try:
+          out = coding.evaluate(code, global_vars={'SENTINEL': sentinel, 'CTX': contextlib.nullcontext},
+                                permission=perm(case['explicit']), outputs_intermediate=True)
+        finally:
+          builtins.exec, builtins.eval, builtins.compile = real_exec, real_eval, real_compile
         obs = {'outcome': 'ok', 'stdout': _canon_text(out.pop('__stdout__', None)),
                'result': _canon_value(out.pop('__result__', None)),
                'vars': {k: _canon_value(v) for k, v in out.items()}}
-      except coding.CodeError as e:
-        obs = {'outcome': 'code_error', 'cause': type(e.cause).__name__, 'line': e.lineno,
-               'cause_is_syntax': isinstance(e.cause, SyntaxError)}
-      except Exception as e:   # pylint: disable=broad-except
-        obs = {'outcome': 'other_error', 'cause': type(e).__name__}
-      finally:
-        builtins.exec, builtins.eval, builtins.compile = real_exec, real_eval, real_compile
+    except coding.CodeError as e:
+      obs = {'outcome': 'code_error', 'cause': type(e.cause).__name__, 'line': e.lineno,
+             'cause_is_syntax': isinstance(e.cause, SyntaxError)}
+    except Exception as e:   # pylint: disable=broad-except
+      obs = {'outcome': 'other_error', 'cause': type(e).__name__}
     slot_after = names_of(coding.get_permission())
     obs['reached'] = bool([r for r in reached if r != 'compile'])   # something was executed
     obs['validated'] = bool(reached)                                 # validation was passed
